@@ -159,6 +159,16 @@ CHECKS['C15'] = dict(
          "skipWhitespace only stops at end of input or at a non-space). Tabs count one column, as in the lexer's own convention.",
     tech="static analysis: forward must-dataflow over a three-point character lattice, path counting of consumed characters vs. literal length, normalised term comparison of span arguments")
 
+CHECKS['C14'] = dict(
+    text="The table-shaped part of the grammar decided exhaustively: binding powers, prefix power, loop-exit comparison and recursion arguments "
+         "extracted from the Pratt parser; all 256 ordered pairs of binary operators plus prefix/binary, prefix/postfix and binary/postfix "
+         "interplay compared with the precedence chain parsed from docs/grammar.md (independent of the numeric values chosen); grammar "
+         "operators ↔ lexer spellings ↔ parser bindings; parser-tested tokens producible; lexer keywords consumed; one primitive-type "
+         "token set at every type-start test; statement-keyword dispatch.",
+    note=TB + "Oracle: docs/grammar.md. Not decided: the round-trip itself (tree equality after render/parse) for statement and class-member "
+         "shapes; the annotated-member backtracking is decided under C13 (R13.4).",
+    tech="static analysis: table extraction from switch/constant definitions and exhaustive comparison with the documented precedence chain (K-TABLE), sibling agreement of token sets")
+
 NOT_YET = "check not yet built in this round (framework under construction; see DESIGN.md §4 for the planned static rules)"
 
 
